@@ -145,7 +145,7 @@ theorem dotSparse_eq_dense {nnz n : Nat} (vec1 : Vector ℝ nnz) (ind1 : Vector 
       = ∑ c ∈ range n, (∑ k ∈ range nnz, if nget ind1 k = c then vget vec1 k else 0) * vget vec2 c := by
   unfold dotSparse
   rw [dotSpSum_ofFn _ _ (fun k => vget vec1 k * vget vec2 (nget ind1 k))
-    (by intro k; rw [getElem_eq_vget, getElem_eq_vget, getElem_eq_nget])]
+    (by intro k; simp only [Fin.getElem_fin, getElem_eq_vget, getElem_eq_nget])]
   simp_rw [Finset.sum_mul]
   rw [Finset.sum_comm]
   apply Finset.sum_congr rfl
